@@ -6,8 +6,8 @@ use crate::engine::Violation;
 use serde_json::Value;
 
 pub fn check(name: &str, case: &Value, v: &Violation) -> bool {
-    let _ = v;
     match name {
+        "enum_constrained_newtype_over_non_partialeq_type" => v.detail.contains("can't compare") && v.detail.contains(".contains(&value)"),
         "union_branches_share_prop_with_different_inline_schema" => union_branches_share_prop(case),
         "union_mixes_open_and_closed_variants" => union_mixes_open_closed(case),
         "union_of_open_single_property_objects" => union_open_single_prop(case),
@@ -24,6 +24,9 @@ pub fn check(name: &str, case: &Value, v: &Violation) -> bool {
                 b.get("additionalProperties") == Some(&Value::Bool(false))
                     && b.get("properties").and_then(|p| p.as_object()).map(|p| p.len() <= 2 && p.values().any(|s| s.get("enum").and_then(|e| e.as_array()).map(|e| e.len() == 1).unwrap_or(false))).unwrap_or(false)
             })).unwrap_or(false)
+        }),
+        "union_with_two_null_alternatives" => any_schema_node(case, &mut |o| {
+            ["oneOf", "anyOf"].iter().any(|k| o.get(*k).and_then(|b| b.as_array()).map(|bs| bs.iter().filter(|b| b.get("type") == Some(&Value::String("null".into()))).count() >= 2).unwrap_or(false))
         }),
         _ => false,
     }
